@@ -468,3 +468,243 @@ Proof.
     replace ((val win' + 1 * Bn - val m) * Bn) with ((val win' + 1 * Bn) * Bn - val m * Bn) by ring.
     rewrite V. ring.
 Qed.
+
+(** ** monty_modpow: helpers *)
+Lemma odd_gcd_pow2 M j : Z.odd M = true -> 0 <= j -> Z.gcd M (2 ^ j) = 1.
+Proof.
+  intros Ho Hj. apply Zgcd_1_rel_prime. apply rel_prime_Zpower_r; [auto|].
+  apply rel_prime_sym. apply prime_rel_prime; [apply prime_2|].
+  intros [q Eq]. rewrite Eq, Z.odd_mul in Ho. cbn in Ho. rewrite andb_false_r in Ho. discriminate.
+Qed.
+
+Lemma mod_cancel M R r s : 0 < M -> Z.gcd M R = 1 ->
+  (r * R) mod M = (s * R) mod M -> r mod M = s mod M.
+Proof.
+  intros HM Hg E.
+  assert (D : (M | R * (r - s))).
+  { apply Z.mod_divide; [lia|]. replace (R * (r - s)) with (r * R - s * R) by ring.
+    rewrite Zminus_mod, E, Z.sub_diag. apply Z.mod_0_l; lia. }
+  apply Z.gauss in D; [|auto]. destruct D as [q Eq].
+  replace r with (s + q * M) by lia. apply Z.mod_add; lia.
+Qed.
+
+Lemma val_odd l : Z.odd (val l) = Z.odd (hd 0 l).
+Proof.
+  destruct l as [|d l]; [reflexivity|]. rewrite val_cons. cbn [hd].
+  rewrite Z.odd_add, Z.odd_mul. rewrite B_val. cbn [Z.odd andb]. apply xorb_false_r.
+Qed.
+
+Lemma length_enc_bound v k : 0 <= v < B ^ Z.of_nat k -> (length (enc v) <= k)%nat.
+Proof.
+  intros Hv. destruct (enc v) as [|d l] eqn:E; [cbn; lia|].
+  pose proof (enc_canon v) as Hc. rewrite E in Hc.
+  pose proof (canon_lower _ Hc ltac:(discriminate)) as Hl.
+  rewrite <- E, enc_val in Hl by lia. rewrite E in Hl.
+  destruct (le_lt_dec (length (d :: l)) k) as [|Hgt]; [auto|exfalso].
+  assert (B ^ Z.of_nat k <= B ^ (Z.of_nat (length (d :: l)) - 1)).
+  { apply Z.pow_le_mono_r; [apply B_pos|lia]. }
+  lia.
+Qed.
+
+Lemma resize_spec l n : wf l -> (length l <= n)%nat ->
+  wf (resize l n) /\ length (resize l n) = n /\ val (resize l n) = val l.
+Proof.
+  intros Wl Hl. unfold resize. rewrite firstn_all2 by lia.
+  split; [apply wf_app; split; [auto|apply wf_zeros]|].
+  split; [rewrite app_length, length_zeros; lia|].
+  rewrite val_app, val_zeros. ring.
+Qed.
+
+Lemma B_pow_2pow n : B ^ Z.of_nat n = 2 ^ (64 * Z.of_nat n).
+Proof. rewrite Z.pow_mul_r by lia. rewrite B_val. reflexivity. Qed.
+
+(** window arithmetic: one 4-bit step of a 64-bit digit held in the top bits *)
+Lemma window_step yi s : 0 <= yi < B -> 1 <= s <= 16 ->
+  yi / 2 ^ (64 - 4 * s) =
+  (yi / 2 ^ 60) * 2 ^ (4 * (s - 1)) + ((yi * 2 ^ 4) mod B) / 2 ^ (64 - 4 * (s - 1)).
+Proof.
+  intros Hy Hs. set (a := 64 - 4 * s).
+  assert (E60 : 2 ^ 60 = 2 ^ (4 * (s - 1)) * 2 ^ a).
+  { rewrite <- Z.pow_add_r by lia. f_equal; lia. }
+  assert (EB : B = 2 ^ 60 * 2 ^ 4) by (rewrite B_val; reflexivity).
+  assert (E2 : (yi * 2 ^ 4) mod B = (yi mod 2 ^ 60) * 2 ^ 4).
+  { rewrite EB. apply Z.mul_mod_distr_r; lia. }
+  rewrite E2. replace (64 - 4 * (s - 1)) with (a + 4) by lia.
+  rewrite Z.pow_add_r by lia. rewrite Z.div_mul_cancel_r by lia.
+  rewrite (Z.div_mod yi (2 ^ 60)) at 1 by lia.
+  rewrite E60 at 1. replace (2 ^ (4 * (s - 1)) * 2 ^ a * (yi / 2 ^ 60) + yi mod 2 ^ 60)
+    with ((yi / 2 ^ 60 * 2 ^ (4 * (s - 1))) * 2 ^ a + yi mod 2 ^ 60) by ring.
+  rewrite Z.div_add_l by lia. reflexivity.
+Qed.
+
+Lemma fold_rev_val y : fold_left (fun E d => E * B + d) (rev y) 0 = val y.
+Proof.
+  induction y as [|d y IH]; [reflexivity|].
+  cbn [rev]. rewrite fold_left_app. cbn [fold_left]. rewrite IH, val_cons. ring.
+Qed.
+
+(** ** monty_modpow *)
+Section MontyModpow.
+Variable ap : addsub_params.
+Variable bdivrem : list Z -> list Z -> outcome (list Z * list Z).
+Hypothesis Hap : addsub_ok ap = true.
+Hypothesis Hdivrem : forall a b, canon a -> canon b ->
+  bdivrem a b = if val b =? 0 then Panic DivZero
+                else Ret (enc (val a / val b), enc (val a mod val b)).
+
+Lemma brem_spec a m : canon a -> canon m -> val m <> 0 ->
+  brem bdivrem a m = Ret (enc (val a mod val m)).
+Proof.
+  intros Ha Hm Hz. unfold brem. rewrite Hdivrem by auto.
+  replace (val m =? 0) with false by (symmetry; apply Z.eqb_neq; auto). reflexivity.
+Qed.
+
+Variable p : modpow_params.
+Hypothesis Hp : modpow_ok p = true.
+Variables (m : list Z) (k : Z).
+Let nw := length m.
+Let M := val m.
+Let R := B ^ Z.of_nat nw.
+Hypothesis Wm : wf m.
+Hypothesis HM : 0 < M.
+Hypothesis HoddM : Z.odd M = true.
+Hypothesis Hk : digit k.
+Hypothesis Hkm : (k * hd 0 m) mod B = B - 1.
+
+Definition mrep (v : list Z) (a : Z) : Prop :=
+  wf v /\ length v = nw /\ val v mod M = (a * R) mod M.
+
+Lemma gcd_M_R : Z.gcd M R = 1.
+Proof. unfold R. rewrite B_pow_2pow. apply odd_gcd_pow2; [auto|lia]. Qed.
+
+Lemma mont_cong u v : wf u -> wf v -> length u = nw -> length v = nw ->
+  exists r, montgomery p u v m k nw = Ret r /\ wf r /\ length r = nw /\
+    (val r * R) mod M = (val u * val v) mod M.
+Proof.
+  intros Wu Wv Lu Lv.
+  destruct (montgomery_spec p u v m k nw Hp Wu Wv Wm Lu Lv eq_refl Hk Hkm) as (r & E & Wr & Lr & T & ET).
+  exists r. repeat split; auto. fold R in ET. rewrite ET. fold M. apply Z.mod_add; lia.
+Qed.
+
+Lemma mont_mrep u v a b : mrep u a -> mrep v b ->
+  exists r, montgomery p u v m k nw = Ret r /\ mrep r (a * b).
+Proof.
+  intros (Wu & Lu & Vu) (Wv & Lv & Vv).
+  destruct (mont_cong u v Wu Wv Lu Lv) as (r & E & Wr & Lr & Vr).
+  exists r. split; [auto|]. split; [auto|]. split; [auto|].
+  apply mod_cancel with R; [auto|apply gcd_M_R|]. rewrite Vr.
+  rewrite Z.mul_mod, Vu, Vv, <- Z.mul_mod by lia. f_equal. ring.
+Qed.
+
+Lemma mrep_ext v a a' : mrep v a -> a mod M = a' mod M -> mrep v a'.
+Proof.
+  intros (W & L & V) E. repeat split; auto. rewrite V.
+  rewrite Z.mul_mod, E, <- Z.mul_mod by lia. reflexivity.
+Qed.
+
+(** the table of powers *)
+Lemma pow_table_spec X p1 : 0 <= X -> mrep p1 X -> forall cnt prev j, 1 <= j -> mrep prev (X ^ j) ->
+  exists rest, pow_table p cnt m k nw prev p1 = Ret rest /\ length rest = cnt /\
+    forall i, (i < cnt)%nat -> mrep (nth i rest []) (X ^ (j + 1 + Z.of_nat i)).
+Proof.
+  intros HX H1. induction cnt as [|cnt IH]; intros prev j Hj Hprev.
+  - exists []. cbn [pow_table length]. split; [reflexivity|]. split; [reflexivity|]. intros i0 Hi; lia.
+  - cbn [pow_table]. destruct (mont_mrep prev p1 _ _ Hprev H1) as (r & E & Hr). rewrite E. cbn [bind].
+    assert (Hr' : mrep r (X ^ (j + 1))).
+    { eapply mrep_ext; [exact Hr|]. rewrite Z.pow_add_r, Z.pow_1_r by lia. reflexivity. }
+    destruct (IH r (j + 1) ltac:(lia) Hr') as (rest & E2 & L2 & N2). rewrite E2. cbn [bind].
+    exists (r :: rest). split; [reflexivity|]. split; [cbn [length]; lia|].
+    intros [|i0] Hi; cbn [nth].
+    + replace (j + 1 + Z.of_nat 0) with (j + 1) by lia. exact Hr'.
+    + replace (j + 1 + Z.of_nat (S i0)) with (j + 1 + 1 + Z.of_nat i0) by lia. apply N2. lia.
+Qed.
+
+Section Loops.
+Variable X : Z.
+Hypothesis HX : 0 <= X.
+Variable powers : list (list Z).
+Hypothesis Hpowers : forall i, 0 <= i < 16 ->
+  exists q, nth_error powers (Z.to_nat i) = Some q /\ mrep q (X ^ i).
+
+Lemma sq4 z e : 0 <= e -> mrep z (X ^ e) ->
+  exists z4,
+    (do zz <- montgomery p z z m k nw;
+     do z1 <- montgomery p zz zz m k nw;
+     do zz2 <- montgomery p z1 z1 m k nw;
+     montgomery p zz2 zz2 m k nw) = Ret z4 /\ mrep z4 (X ^ (16 * e)).
+Proof.
+  intros He H0.
+  destruct (mont_mrep z z _ _ H0 H0) as (z1 & E1 & H1). rewrite E1. cbn [bind].
+  destruct (mont_mrep z1 z1 _ _ H1 H1) as (z2 & E2 & H2). rewrite E2. cbn [bind].
+  destruct (mont_mrep z2 z2 _ _ H2 H2) as (z3 & E3 & H3). rewrite E3. cbn [bind].
+  destruct (mont_mrep z3 z3 _ _ H3 H3) as (z4 & E4 & H4). rewrite E4.
+  exists z4. split; [reflexivity|]. eapply mrep_ext; [exact H4|]. f_equal.
+  rewrite <- !Z.pow_add_r by lia. f_equal. lia.
+Qed.
+
+Lemma win_loop_spec : forall (s : nat) fuel first yi z e,
+  (s <= 16)%nat -> (s < fuel)%nat -> 0 <= yi < B -> 0 <= e -> mrep z (X ^ e) ->
+  (first = true -> s = 16%nat -> e = 0) ->
+  exists z', win_loop p fuel powers m k nw first yi (64 - 4 * Z.of_nat s) z = Ret z' /\
+    mrep z' (X ^ (e * 2 ^ (4 * Z.of_nat s) + yi / 2 ^ (64 - 4 * Z.of_nat s))).
+Proof.
+  destruct (modpow_ok_inv p Hp) as (Ew & _).
+  induction s as [|s IH]; intros fuel first yi z e Hs Hf Hyi He Hz Hfirst.
+  - destruct fuel as [|fuel]; [lia|]. cbn [win_loop]. cbn [Z.of_nat Z.mul Z.sub Z.ltb Z.compare Pos.compare Pos.compare_cont Z.opp Z.add].
+    exists z. split; [reflexivity|]. eapply mrep_ext; [exact Hz|]. f_equal. f_equal.
+    change (2 ^ 0) with 1. change (2 ^ 64) with 18446744073709551616. rewrite <- B_val.
+    rewrite Z.div_small by lia. ring.
+  - destruct fuel as [|fuel]; [lia|]. cbn [win_loop].
+    set (j := 64 - 4 * Z.of_nat (S s)).
+    replace (j <? 64) with true by (symmetry; apply Z.ltb_lt; unfold j; lia).
+    rewrite Ew.
+    assert (Hz4 : exists z4, (if negb first || negb (j =? 0)
+              then do zz <- montgomery p z z m k nw;
+                   do z0 <- montgomery p zz zz m k nw;
+                   do zz0 <- montgomery p z0 z0 m k nw; montgomery p zz0 zz0 m k nw
+              else Ret z) = Ret z4 /\ mrep z4 (X ^ (16 * e))).
+    { destruct (negb first || negb (j =? 0)) eqn:Ec.
+      - apply sq4; auto.
+      - apply orb_false_iff in Ec as [E1 E2]. apply negb_false_iff in E1, E2.
+        apply Z.eqb_eq in E2. exists z. split; [reflexivity|].
+        rewrite Hfirst by (auto; unfold j in E2; lia). exact (eq_ind _ (fun t => mrep z (X ^ t)) Hz _ (Hfirst E1 ltac:(unfold j in E2; lia))). }
+    destruct Hz4 as (z4 & E4 & H4). rewrite E4. cbn [bind].
+    change (64 - 4) with 60. change ((0 <=? 4) && (4 <=? 64) && (0 <? 60)) with true. cbn [assert_ bind].
+    assert (Hidx : 0 <= yi / 2 ^ 60 < 16).
+    { split; [apply Z.div_pos; lia|]. apply Z.div_lt_upper_bound; [lia|]. rewrite B_val in Hyi. lia. }
+    destruct (Hpowers _ Hidx) as (q & Eq & Hq). rewrite Eq. cbn [bind].
+    destruct (mont_mrep z4 q _ _ H4 Hq) as (zz & Ez & Hzz). rewrite Ez. cbn [bind].
+    replace (j + 4) with (64 - 4 * Z.of_nat s) by (unfold j; lia).
+    assert (Hs1 : (s <= 16)%nat) by lia. assert (Hs2 : (s < fuel)%nat) by lia.
+    assert (Hy' : 0 <= (yi * 2 ^ 4) mod B < B) by (apply Z.mod_pos_bound, B_pos).
+    set (idx := yi / 2 ^ 60) in *.
+    assert (He' : 0 <= 16 * e + idx) by lia.
+    assert (Hzz' : mrep zz (X ^ (16 * e + idx))).
+    { eapply mrep_ext; [exact Hzz|]. rewrite Z.pow_add_r by lia. reflexivity. }
+    assert (Hf' : first = true -> s = 16%nat -> 16 * e + idx = 0) by (intros _ Hs16; exfalso; lia).
+    destruct (IH fuel first ((yi * 2 ^ 4) mod B) zz (16 * e + idx) Hs1 Hs2 Hy' He' Hzz' Hf') as (z' & E' & H').
+    exists z'. split; [exact E'|]. eapply mrep_ext; [exact H'|]. f_equal. f_equal.
+    unfold j. rewrite (window_step yi (Z.of_nat (S s))) by lia. fold idx.
+    replace (Z.of_nat (S s) - 1) with (Z.of_nat s) by lia.
+    replace (4 * Z.of_nat (S s)) with (4 * Z.of_nat s + 4) by lia.
+    rewrite Z.pow_add_r by lia. change (2 ^ 4) with 16. ring.
+Qed.
+
+Lemma exp_loop_spec : forall ys first z E, wf ys -> 0 <= E -> mrep z (X ^ E) ->
+  (first = true -> E = 0) ->
+  exists z', exp_loop p powers m k nw first ys z = Ret z' /\
+    mrep z' (X ^ (fold_left (fun E d => E * B + d) ys E)).
+Proof.
+  induction ys as [|yi ys IH]; intros first z E Wy HE Hz Hfirst.
+  - exists z. split; [reflexivity|exact Hz].
+  - apply wf_cons in Wy as [Hyi Wy]. cbn [exp_loop fold_left].
+    destruct (win_loop_spec 16 66 first yi z E) as (z1 & E1 & H1); auto; try lia.
+    change (64 - 4 * Z.of_nat 16) with 0 in E1, H1. rewrite E1. cbn [bind].
+    change (2 ^ 0) with 1 in H1. rewrite Z.div_1_r in H1.
+    change (2 ^ (4 * Z.of_nat 16)) with 18446744073709551616 in H1. rewrite <- B_val in H1.
+    unfold digit in Hyi.
+    destruct (IH false z1 (E * B + yi) Wy ltac:(pose proof B_pos; nia) H1 ltac:(discriminate)) as (z' & E' & H').
+    exists z'. split; auto.
+Qed.
+End Loops.
+End MontyModpow.
